@@ -90,7 +90,7 @@ Theorem c13_owner_pointer_into_label_starts : forall hl h n w L, NInv w hl L -> 
   match write_hinted_name h n w with
   | Ok (pr, w') => emittedL n (w_buf w') (w_cursor w) (w_cursor w') L /\
                    exists L', grew w w' L L' /\ NInv w' hl L' /\ (forall p, pr = Some p -> L' (p_ptr p)) /\
-                              emittedT n (w_buf w') (w_cursor w) (w_cursor w') L L'
+                              emittedT (exactf (w_mode w)) n (w_buf w') (w_cursor w) (w_cursor w') L L'
   | Err (e, _) => e = Truncation
   | Panic => False
   end.
@@ -100,7 +100,7 @@ Theorem c13_unhinted_pointer_into_label_starts : forall hl n w L, NInv w hl L ->
   match write_unhinted_name n w with
   | Ok (pr, w') => emittedL n (w_buf w') (w_cursor w) (w_cursor w') L /\
                    exists L', grew w w' L L' /\ NInv w' hl L' /\ (forall p, pr = Some p -> L' (p_ptr p)) /\
-                              emittedT n (w_buf w') (w_cursor w) (w_cursor w') L L'
+                              emittedT (exactf (w_mode w)) n (w_buf w') (w_cursor w) (w_cursor w') L L'
   | Err (e, _) => e = Truncation
   | Panic => False
   end.
